@@ -70,8 +70,52 @@ void ezc3d::c3d::print() const
     data().print();
 }
 
+// Throws if the content cannot be represented in a c3d file (lengths and counts are stored on one byte,
+// integers and offsets on two): written anyway, it would be truncated and read back as something else
+static void checkFitsInC3dFormat(const ezc3d::c3d& c3d)
+{
+    size_t sectionSize(4);
+    for (size_t g = 0; g < c3d.parameters().nbGroups(); ++g){
+        const ezc3d::ParametersNS::GroupNS::Group& group(c3d.parameters().group(g));
+        if (group.name().size() == 0 && group.nbParameters() == 0)
+            continue;
+        if (g >= 127 || group.name().size() > 127 || group.description().size() > 255)
+            throw std::range_error("Group " + group.name() + " does not fit in the c3d format");
+        sectionSize += 5 + group.name().size() + group.description().size();
+        for (size_t p = 0; p < group.nbParameters(); ++p){
+            const ezc3d::ParametersNS::GroupNS::Parameter& param(group.parameter(p));
+            const std::vector<size_t> dimension(param.dimension());
+            bool fits(param.name().size() <= 127 && param.description().size() <= 255 && dimension.size() <= 7);
+            size_t nbValues(dimension.size() > 0 ? 1 : 0);
+            for (size_t i = 0; i < dimension.size(); ++i){
+                fits = fits && dimension[i] <= 255;
+                nbValues *= dimension[i];
+            }
+            if (param.type() == ezc3d::DATA_TYPE::INT)
+                for (size_t i = 0; i < param.valuesAsInt().size(); ++i)
+                    fits = fits && param.valuesAsInt()[i] >= -32768 && param.valuesAsInt()[i] <= 32767;
+            if (param.type() == ezc3d::DATA_TYPE::BYTE)
+                for (size_t i = 0; i < param.valuesAsByte().size(); ++i)
+                    fits = fits && param.valuesAsByte()[i] >= -128 && param.valuesAsByte()[i] <= 127;
+            size_t recordSize(7 + param.name().size() + dimension.size() + param.description().size()
+                              + nbValues * static_cast<size_t>(abs(static_cast<int>(param.type()))));
+            if (!fits || recordSize > 65535)
+                throw std::range_error("Parameter " + group.name() + ":" + param.name() + " does not fit in the c3d format");
+            sectionSize += recordSize;
+        }
+    }
+    if (sectionSize / 512 + 1 > 255)
+        throw std::range_error("The parameters do not fit in the 255 blocks a c3d file can hold");
+    if (c3d.header().nb3dPoints() > 65535 || c3d.header().nbAnalogsMeasurement() > 65535
+            || c3d.header().nbAnalogByFrame() > 65535 || c3d.header().firstFrame() + 1 > 65535
+            || (c3d.data().nbFrames() > 0 && c3d.header().lastFrame() + 1 > 65535))
+        throw std::range_error("The number of points, analogs or frames does not fit in the c3d format");
+}
+
 void ezc3d::c3d::write(const std::string& filePath) const
 {
+    checkFitsInC3dFormat(*this);
+
     std::fstream f(filePath, std::ios::out | std::ios::binary);
     if (!f.is_open())
         throw std::ios_base::failure("Could not open the c3d file to write");
